@@ -478,6 +478,16 @@ def o8(h, st):
     h.check("do_commute(a, b) == every term of a commutes with every term of b", bool(r) == every_pair, detail=f"{st['a']} {st['b']} -> {r}")
     tr = h.call(MF, "do_commute", ma, mb, True)
     h.check("term-resolved flags", [bool(x) for x in tr] == [all(words_commute(x, y) for y in st["b"]) for x in st["a"]])
+    # the array form is a CONVERSION of the source operator: updating it in place (removing / compressing terms, as the tapering does with non-commuting terms) must
+    # leave the source QubitOperator untouched, and the array form then describes the remaining terms
+    qa_before, qb_before = dict(qa.terms), dict(qb.terms)
+    n_terms = len(ma.factors)
+    if n_terms >= 1:
+        h.call(MF, "MultiformOperator.remove_terms", ma, [0])
+        h.check("remove_terms on the array form leaves the source operator unchanged", dict(qa.terms) == qa_before and dict(qb.terms) == qb_before, detail=f"{dict(qa.terms)} vs {qa_before}")
+        h.check("remove_terms removes exactly the requested term", len(ma.factors) == n_terms - 1 and len(dict(ma.terms)) == n_terms - 1 and set(dict(ma.terms)) <= set(qa_before))
+    h.call(MF, "MultiformOperator.compress", mb)
+    h.check("compress on the array form leaves the source operator unchanged", dict(qb.terms) == qb_before)
     h.done()
 
 
